@@ -38,6 +38,7 @@ fi
 if git diff --name-only --diff-filter=U | grep -q '^harness/Cargo.lock$'; then
   git checkout --ours harness/Cargo.lock; git add harness/Cargo.lock
 fi
+for f in $(git diff --name-only --diff-filter=U | grep "^evidence/" || true); do git checkout --theirs "$f"; git add "$f"; done
 git checkout --ours MANIFEST.json 2>/dev/null || true
 python3 tools/gen_manifest.py
 git add known-findings.json MANIFEST.json
